@@ -284,7 +284,7 @@ HSPECS = [("dict", (("a",),), "none", "none"), ("dict", (("a", "b"),), "none", "
 
 def history_cases(tier):
     # events: (spec index, local?) ; every sequence of 3 (thorough 4) dump/load round trips on shared and per-class configs
-    evs = [(i, local) for i in range(len(HSPECS)) for local in (False, True)]
+    evs = [(i, local) for i in range(len(HSPECS)) for local in (False, True, "shared-table")]
     L = 4 if tier == "thorough" else 3
     for seq in itertools.product(range(len(evs)), repeat=L):
         if tier == "quick" and len(set(seq)) == 1:
@@ -294,15 +294,16 @@ def history_cases(tier):
 
 def check_history(case):
     (seq,) = case
-    evs = [(i, local) for i in range(len(HSPECS)) for local in (False, True)]
+    evs = [(i, local) for i in range(len(HSPECS)) for local in (False, True, "shared-table")]
     out = Out(cls="history")
     shared = Config(version=2.0)
     for step, e in enumerate(seq):
         si, local = evs[e]
         spec = HSPECS[si]
-        o, cls, fields = make_instance(spec, default_assignment(nfields(spec), shift=step), local)
-        # all local classes of this leg are called 'L0': each event registers its own class under that name
-        cfg = shared if not local else Config(version=2.0)
+        o, cls, fields = make_instance(spec, default_assignment(nfields(spec), shift=step), bool(local))
+        # all local classes of this leg are called 'L0': each event registers its own class under that name, either in a table
+        # of its own or ("shared-table") in the one table all events share - there the newest registration of the name is the one in force
+        cfg = shared if local in (False, "shared-table") else Config(version=2.0)
         if local:
             cfg.classes.add(cls)
         try:
@@ -340,7 +341,7 @@ META = {
     "hierarchies x each field over 17 values (primitives, containers, and values of subclass types: OrderedDict, Counter, dict/list/str/int subclasses, namedtuple) (all pairs for 2-field classes) x 8 contexts (top, containers, beans, 40 levels deep) x 6 paths (dump/load, dumps/loads, RPC parameter and result under "
     "1.0 and 2.0) x module-qualified / locally registered; serialize: serialisation-method classes (list args, dict args, custom method name) x 8 "
     "attribute values x contexts x paths; singletons: 5 enum members and 7 Decimals x contexts x paths; histories: every sequence of 3 (thorough 4) round trips "
-    "over 4 classes x module/local naming (all local classes share one bare name in different class tables); every case is non-trivial",
+    "over 4 classes x {module-qualified, local in a table of its own, local re-registered under the same bare name in the shared table (newest registration wins)}; every case is non-trivial",
     "bounds": {"quick": {"depth": 2, "fields_per_level": 2}, "thorough": {"depth": 3, "fields_per_level": 2}},
     "assumptions": [
         "generated classes accept a no-argument constructor (the translator's documented requirement)",
